@@ -254,6 +254,144 @@ def lrun (cap : Nat) : LQ → List LAct → LQ × List (List Nat)
       let r := lrun cap s' l
       (r.1, (match a with | .send b => [b] | _ => []) ++ r.2)
 
+/-! ### the sending side
+
+`TCPConn.Send` (tcp.go:192-205) and `sendRaw` (tcp.go:210-243): the length prefix through one
+`binary.Write` (one `conn.Write` of four bytes, whose byte count is ignored), then
+`for sent < packetSize { n, err := c.conn.Write(b[sent:]); …; sent += Size(n) }`.  The transport is
+an *oracle*: per `Write` call it says how many bytes it takes and whether the call fails.  Every
+accepted piece is a segment on the wire; the receiving side may re-cut them at will (`Segs`). -/
+
+/-- what one `conn.Write(p)` does with the bytes it is given -/
+inductive WAct where
+  /-- no error. On the body: the transport takes `max k 1` bytes (at most `len p`) and returns that
+  count — the partial write the loop of `sendRaw` exists for. On the header (whose count nobody
+  looks at) the four bytes leave as two pieces cut at `k`. -/
+  | acc (k : Nat)
+  /-- the transport takes (at most) `k` bytes, then the call fails (write deadline, reset, closed) -/
+  | fail (k : Nat)
+  deriving DecidableEq, Repr
+
+/-- `binary.Write(c.conn, globalOrder, packetSize)` (tcp.go:217-222) -/
+def writeHeader (hdr : List Nat) : List WAct → Segs × Bool × List WAct
+  | [] => ([hdr], true, [])
+  | .acc k :: o => ([hdr.take k, hdr.drop k], true, o)
+  | .fail k :: o => ([hdr.take k], false, o)
+
+/-- the body loop (tcp.go:229-240); the fuel is the number of bytes left (every successful `Write`
+moves at least one). An exhausted oracle is a transport that takes whatever it is given. -/
+def writeBody : Nat → List Nat → List WAct → Segs × Bool × List WAct
+  | 0, rest, o => ([], rest.isEmpty, o)
+  | fuel + 1, rest, o =>
+    if rest.isEmpty then ([], true, o) else
+    match o with
+    | [] => ([rest], true, [])
+    | .acc k :: o' =>
+      let r := writeBody fuel (rest.drop (max k 1)) o'
+      (rest.take (max k 1) :: r.1, r.2.1, r.2.2)
+    | .fail k :: o' => ([rest.take k], false, o')
+
+/-- `sendRaw`: what went onto the wire, whether it reported success, what is left of the oracle.
+(`Size(len(b))` wraps at 2^32 — `be32` does — and so would the loop counter; buffers of 4 GiB are
+outside the model: the theorems ask for `b.length < 2^32`.) -/
+def sendRaw (b : List Nat) (o : List WAct) : Segs × Bool × List WAct :=
+  let h := writeHeader (be32 b.length) o
+  if h.2.1 then
+    let r := writeBody b.length b h.2.2
+    (h.1 ++ r.1, r.2.1, r.2.2)
+  else h
+
+/-- the sending end of a connection: the segments written so far, the transport oracle, and
+whether the connection was closed -/
+structure SConn where
+  closed : Bool := false
+  out : Segs := []
+  oracle : List WAct := []
+  deriving DecidableEq, Repr
+
+/-- `TCPConn.Send` once `Marshal` has produced `b`.  A failed write **closes the connection** (the
+round-4 fix, tcp.go:218-221 and 232-235: the frame is only partly on the wire, the stream cannot be
+used any further); a closed connection refuses every later send without writing a byte. -/
+def SConn.send (c : SConn) (b : List Nat) : SConn × Bool :=
+  if c.closed then (c, false) else
+    let r := sendRaw b c.oracle
+    ({ closed := !r.2.1, out := c.out ++ r.1, oracle := r.2.2 }, r.2.1)
+
+/-- the behaviour before the fix: the connection stays usable after a failed write -/
+def SConn.sendNoClose (c : SConn) (b : List Nat) : SConn × Bool :=
+  if c.closed then (c, false) else
+    let r := sendRaw b c.oracle
+    ({ c with out := c.out ++ r.1, oracle := r.2.2 }, r.2.1)
+
+/-- a caller that goes on sending whatever the earlier results were (`Router.Send` takes the first
+registered connection of the peer, router.go:340-353, 519-527): the connection afterwards and the
+result of every call -/
+def SConn.sendAll (c : SConn) : List (List Nat) → SConn × List Bool
+  | [] => (c, [])
+  | b :: l =>
+    let r := c.send b
+    let r' := r.1.sendAll l
+    (r'.1, r.2 :: r'.2)
+
+def SConn.sendAllNoClose (c : SConn) : List (List Nat) → SConn × List Bool
+  | [] => (c, [])
+  | b :: l =>
+    let r := c.sendNoClose b
+    let r' := r.1.sendAllNoClose l
+    (r'.1, r.2 :: r'.2)
+
+/-! ### concurrent senders on one connection (`sendMutex`, tcp.go:193-194)
+
+Every `Send` is `sendMutex.Lock(); …writes…; sendMutex.Unlock()`.  A transition system: thread `i`
+has a list of buffers still to send and, while it is inside `Send`, the bytes of the current frame
+it has not written yet.  One step of thread `i`: take the mutex (blocked while somebody holds it),
+write the next piece (of adversarially chosen length: header and body may be cut anywhere), or
+release the mutex when the frame is out. -/
+
+structure Thr where
+  todo : List (List Nat) := []
+  /-- `some rest`: inside `Send`, holding `sendMutex`; `rest` = bytes of the frame still to write -/
+  cur : Option (List Nat) := none
+  deriving DecidableEq, Repr
+
+structure CS where
+  thr : Nat → Thr
+  locked : Option Nat := none
+  wire : List Nat := []
+  /-- ghost: (thread, buffer) in the order the mutex was taken -/
+  log : List (Nat × List Nat) := []
+
+def CS.setThr (s : CS) (i : Nat) (t : Thr) : Nat → Thr := fun j => if j = i then t else s.thr j
+
+/-- one step of thread `i`; `k` = how many bytes its next `Write` moves. `mutex = false` is the
+system without `sendMutex` (for the counter-example). `none` = blocked or finished. -/
+def cstep (mutex : Bool) (s : CS) (i k : Nat) : Option CS :=
+  match (s.thr i).cur with
+  | none =>
+    match (s.thr i).todo with
+    | [] => none
+    | b :: rest =>
+      if mutex && s.locked.isSome then none
+      else some { s with thr := s.setThr i { todo := rest, cur := some (encFrame b) },
+                         locked := some i, log := s.log ++ [(i, b)] }
+  | some r =>
+    if r.isEmpty then
+      some { s with thr := s.setThr i { (s.thr i) with cur := none }, locked := none }
+    else
+      some { s with thr := s.setThr i { (s.thr i) with cur := some (r.drop (max k 1)) },
+                    wire := s.wire ++ r.take (max k 1) }
+
+/-- a schedule: (thread, write size) pairs; blocked / finished steps are skipped -/
+def crun (mutex : Bool) : CS → List (Nat × Nat) → CS
+  | s, [] => s
+  | s, (i, k) :: l =>
+    match cstep mutex s i k with
+    | none => crun mutex s l
+    | some s' => crun mutex s' l
+
+/-- the start: every thread has its buffers, nobody is inside `Send` -/
+def cinit (q : Nat → List (List Nat)) : CS := { thr := fun i => { todo := q i } }
+
 /-! ### line-protocol driver -/
 namespace Drv
 
